@@ -193,6 +193,14 @@ impl LockfreeArena {
     }
 }
 
+#[cfg(lasso_verif)]
+impl LockfreeArena {
+    /// Verification hook (read-only): `(address, capacity, used)` of every block, head of the list first
+    pub(crate) fn verif_blocks(&self) -> alloc::vec::Vec<(usize, usize, usize)> {
+        self.buckets.iter().map(|bucket| bucket.verif_raw()).collect()
+    }
+}
+
 impl Default for LockfreeArena {
     fn default() -> Self {
         Self::new(
